@@ -1361,3 +1361,119 @@ func ruleAliasedBuffer(c *Ctx, r *Report) {
 	}
 	r.analysed(rule, fmt.Sprintf("%d aliased buffer field(s), %d calls on them", len(aliased), n))
 }
+
+// ---------------------------------------------------------------------------
+// R-GLOBAL-COPY-SHARES (C14; added after seed C14j): copying a package-level struct copies its map fields BY
+// REFERENCE: the copy's map is the map every interpreter reads through the original. Outside the initialisers, a
+// whole-struct copy of a package-level variable whose type has a map field is not handed (by address) to a
+// function that inserts into that field's map, and no map loaded from such a copy is inserted into directly.
+// (write_term's options started as a copy of defaultWriteOptions; variable_names(...) then named variables for
+// every interpreter, and two interpreters writing at once crash in the runtime's concurrent-map check.)
+func ruleGlobalCopyShares(c *Ctx, r *Report) {
+	const rule = "R-GLOBAL-COPY-SHARES"
+	desc := "a copy of a package-level struct is never used to insert into a map the original still holds"
+	// W: (struct type, field) whose map a function inserts into through a pointer parameter
+	type tf struct {
+		t string
+		f int
+	}
+	writers := map[tf]*ssa.Function{}
+	for _, fn := range c.LibFuncs() {
+		eachInstr(fn, func(in ssa.Instruction) {
+			mu, ok := in.(*ssa.MapUpdate)
+			if !ok {
+				return
+			}
+			ld, ok := mu.Map.(*ssa.UnOp)
+			if !ok || ld.Op != token.MUL {
+				return
+			}
+			fa, ok := ld.X.(*ssa.FieldAddr)
+			if !ok {
+				return
+			}
+			if _, isParam := fa.X.(*ssa.Parameter); isParam {
+				writers[tf{typeName(deref(fa.X.Type())), fa.Field}] = fn
+			}
+		})
+	}
+	n := 0
+	for _, g := range c.libGlobals() {
+		st, ok := deref(g.Type()).Underlying().(*types.Struct)
+		if !ok {
+			continue
+		}
+		var mapFields []int
+		for i := 0; i < st.NumFields(); i++ {
+			if _, isMap := st.Field(i).Type().Underlying().(*types.Map); isMap {
+				mapFields = append(mapFields, i)
+			}
+		}
+		if len(mapFields) == 0 {
+			continue
+		}
+		tn := typeName(deref(g.Type()))
+		for _, fn := range c.LibFuncs() {
+			if isInitFn(fn) {
+				continue
+			}
+			eachInstr(fn, func(in ssa.Instruction) {
+				ld, ok := in.(*ssa.UnOp)
+				if !ok || ld.Op != token.MUL || ld.X != ssa.Value(g) {
+					return
+				}
+				if _, isStruct := ld.Type().Underlying().(*types.Struct); !isStruct {
+					return
+				}
+				// where does the copy live?
+				for _, ref := range *ld.Referrers() {
+					sto, ok := ref.(*ssa.Store)
+					if !ok {
+						continue
+					}
+					al, ok := sto.Addr.(*ssa.Alloc)
+					if !ok {
+						continue
+					}
+					n++
+					key := fmt.Sprintf("%s/copy(%s)", fname(fn), g.Name())
+					bad := ""
+					for _, r2 := range *al.Referrers() {
+						switch x := r2.(type) {
+						case ssa.CallInstruction:
+							callee := x.Common().StaticCallee()
+							for _, mf := range mapFields {
+								if w := writers[tf{tn, mf}]; w != nil && callee == w {
+									bad = "its address is handed to " + fname(w) + ", which inserts into the map of field " + st.Field(mf).Name()
+								}
+							}
+						case *ssa.FieldAddr:
+							for _, mf := range mapFields {
+								if x.Field != mf {
+									continue
+								}
+								for _, r3 := range *x.Referrers() {
+									if l3, ok := r3.(*ssa.UnOp); ok && l3.Op == token.MUL {
+										for _, r4 := range *l3.Referrers() {
+											if _, ok := r4.(*ssa.MapUpdate); ok {
+												bad = "the map of field " + st.Field(mf).Name() + " is inserted into through the copy"
+											}
+										}
+									}
+								}
+							}
+						}
+					}
+					if bad == "" {
+						r.ok(rule, key, c.at(in), desc, "the copy's maps are not inserted into", true)
+					} else {
+						r.bad(rule, key, c.at(in), desc, bad+": that map is the one "+g.Name()+" holds, read by every interpreter (and written here without a lock)")
+					}
+				}
+			})
+		}
+	}
+	if n == 0 {
+		r.info(rule, "scan/struct-copies", "-", desc, "no package-level struct with a map field is copied outside the initialisers")
+	}
+}
